@@ -14,10 +14,10 @@ TECHNIQUE = 'deterministic simulation, per-target fault injection x seeded threa
 LEVEL = 'exploration'
 BUDGET = {'quick': 200, 'thorough': 2400}
 NCASES = {'quick': 900, 'thorough': 6000}
-RULE = ('cases: target lists of 2-4 (thorough: up to 6) entries mixing healthy archetypes with failure archetypes (unresolvable, refused, black-holed, silent, '
+RULE = ('cases: target lists of 2-4 (thorough: up to 6) entries, every tenth list a single entry, mixing healthy archetypes with failure archetypes (unresolvable, refused, black-holed, silent, '
         'close before/after banner, bad block size, bad SSH-1 CRC, truncated KEXINIT, garbage in the probe phase, version-mismatch only) in seeded positions, '
         'blank lines between entries, `--threads` 1..n, text and -j, seeded scheduler policy; reference per-target statuses come from fresh single-target runs. '
-        'non-trivial: >= 1 failing and >= 1 healthy target in the list; distinct by (failure archetypes, positions, threads, format, completion order).')
+        'non-trivial: >= 1 failing and >= 1 healthy target in the list, or a single failing entry; distinct by (failure archetypes, positions, threads, format, completion order).')
 ASSUMPTIONS = ['a result block is attributed to a target by its "(gen) target:" label or, for error blocks, by the host name inside the error text',
                'rank order internal error > connection error > failure > warning > good, as the README documents']
 
@@ -70,7 +70,9 @@ def cases(seed, tier):
     for i in range(n):
         rng = gen.case_rng(seed, ID, i)
         k = rng.choice([2, 3, 3, 4]) if tier == 'quick' else rng.choice([2, 3, 4, 5, 6])
-        nbad = rng.randrange(1, k) if k > 1 else 1
+        if i % 10 == 9:
+            k = 1     # a targets file with a single entry is still a target list: one block, one array element
+        nbad = rng.randrange(1, k) if k > 1 else rng.choice([0, 1, 1, 1])
         slots = ['bad'] * nbad + ['ok'] * (k - nbad)
         rng.shuffle(slots)
         targets = []
@@ -150,7 +152,7 @@ def run_case(case, ctx):
                 out.append(viol('C08 text: the report of a healthy target is missing', '%s\nmissing: %r\nowners=%r' % (ctx_txt, missing, owners)))
     keys = []
     nbad = sum(1 for s in sts if s not in (0, 2, 3))
-    if nbad and nbad < n:
+    if nbad and (nbad < n or n == 1):
         order = tuple(multi.block_target(b, targets) for b in multi.split_text_blocks(mrec['stdout'])) if case['mode'] == 'text' else ()
         keys.append(h(tuple(a if s not in (0, 2, 3) else '.' for a, s in zip(archs, sts)), case['threads'], case['mode'], order))
     counters = {'bad_targets': nbad, 'mode_' + case['mode']: 1}
